@@ -315,6 +315,12 @@ func c03Check(c *rt.C, st *c03State, env *codecEnv, m *dynamicpb.Message, class 
 					doc := renderTree(tree, "")
 					s.val.Obj = s.val.Obj[:len(s.val.Obj)-1]
 					expectReject(doc, "two-keys-in-oneof", s.kind, pos, fmt.Sprintf("second key %s added to %s", a.JSON, s.describe()))
+					// and with the extra key written first
+					saved := s.val.Obj
+					s.val.Obj = append([]jMember{{a.JSON, v}}, saved...)
+					doc = renderTree(tree, "")
+					s.val.Obj = saved
+					expectReject(doc, "two-keys-in-oneof", s.kind, pos, fmt.Sprintf("second key %s written first in %s", a.JSON, s.describe()))
 				}
 				break
 			}
@@ -334,8 +340,17 @@ func c03Check(c *rt.C, st *c03State, env *codecEnv, m *dynamicpb.Message, class 
 					old := s.val.Obj[i].Val
 					s.val.Obj[i].Val = jS(other)
 					doc := renderTree(tree, "")
-					s.val.Obj[i].Val = old
 					expectReject(doc, "type-contradicts-key", s.kind, pos, fmt.Sprintf("!type set to %q while key %q is present in %s", other, present.JSON, s.describe()))
+					// the same contradiction with "!type" written after the key (member order is free in JSON)
+					saved := append([]jMember{}, s.val.Obj...)
+					moved := append([]jMember{}, s.val.Obj[:i]...)
+					moved = append(moved, s.val.Obj[i+1:]...)
+					moved = append(moved, s.val.Obj[i])
+					s.val.Obj = moved
+					doc = renderTree(tree, "")
+					s.val.Obj = saved
+					s.val.Obj[i].Val = old
+					expectReject(doc, "type-contradicts-key", s.kind, pos, fmt.Sprintf("!type set to %q, written after the key %q, in %s", other, present.JSON, s.describe()))
 				}
 			}
 		}
